@@ -2,7 +2,7 @@
    Saved states travel as symbolic tags (the model never looks inside a state). *)
 From Coq Require Import List NArith ZArith Bool String.
 From PMS Require Import Base.PyStr Base.PyInt Base.Exn Model.Codec Model.ShellBase
-     Spec.AbstractFs Model.FsSave Model.FsCode.
+     Spec.AbstractFs Model.FsSave Model.FsCode Model.FsConc.
 Import ListNotations.
 Open Scope N_scope.
 
@@ -89,6 +89,30 @@ Definition tok_class (t : pstr) : option (fclass tag) :=
 
 Definition ex_of (c : cfg) : bool := c_main c.
 
+(* statement number of the k-th (0-based) statement whose operation satisfies p *)
+Fixpoint find_stmt (p : instr -> bool) (k n : nat) (prog : list sinstr) : option nat :=
+  match prog with
+  | [] => None
+  | i :: r =>
+      if p (i_op i) then match k with O => Some n | S k' => find_stmt p k' (S n) r end
+      else find_stmt p k (S n) r
+  end.
+
+(* the pause points of harness/impl/slowsave.py -> statement of the generated program *)
+Definition pause_stmt (t : pstr) (prog : list sinstr) : option nat :=
+  let is_flush o := match o with IFlush => true | _ => false end in
+  let is_fsync o := match o with IFsync => true | _ => false end in
+  let is_rename o := match o with IRename _ _ => true | _ => false end in
+  let is_remove o := match o with IRemove _ => true | _ => false end in
+  if pstr_eqb t (s2p "before-flush") then find_stmt is_flush 0 0 prog
+  else if pstr_eqb t (s2p "fsync") then find_stmt is_fsync 0 0 prog
+  else if pstr_eqb t (s2p "before-rename") then find_stmt is_rename 0 0 prog
+  else if pstr_eqb t (s2p "before-rename2") then find_stmt is_rename 1 0 prog
+  else if pstr_eqb t (s2p "before-remove") then find_stmt is_remove 0 0 prog
+  else None.
+
+Definition c_prior_main : cfg := mkCfg true None None.
+
 Definition fs_cmd (cmd : pstr) (args : list pstr) : option pstr :=
   if pstr_eqb cmd (s2p "trace") then
     match args with
@@ -126,6 +150,28 @@ Definition fs_cmd (cmd : pstr) (args : list pstr) : option pstr :=
             Some (sp [out_status (fo_status o); out_bool (fo_need_save o); out_bool main_new;
                       out_lres (fo_loaded o); out_again (fo_again o)])
         | _, _, _, _, _, _ => Some bad
+        end
+    | _ => Some bad
+    end
+  else if pstr_eqb cmd (s2p "conc") then
+    (* conc <fmt> <locked|unlocked> <pause point> <ep> <ee>: the scheduled save of TNew preempted there, a message
+       (network TNext), stop()'s save of TNext; with the lock the preemption cannot let stop()'s save in *)
+    match args with
+    | [f; mode; pt; ep; ee] =>
+        match tok_fmt f, tok_str ep, tok_str ee with
+        | Some f, Some ep, Some ee =>
+            match pause_stmt pt (save_prog_of f) with
+            | Some i =>
+                if pstr_eqb mode (s2p "locked") then
+                  let o := conc_locked (code f) c_prior_main TOld TNew TNext TSb TSt 1 ep ee 1 in
+                  Some (sp [out_lres (a_loaded (fo_again o)); out_status (fo_status o); out_status (a_status (fo_again o))])
+                else if pstr_eqb mode (s2p "unlocked") then
+                  let o := conc_unlocked (code f) c_prior_main TOld TNew TNext TSb TSt 1 i 0 ep ee 1 in
+                  Some (sp [out_lres (cc_loaded o); out_status (cc_status1 o); out_status (cc_status2 o)])
+                else Some bad
+            | None => Some bad
+            end
+        | _, _, _ => Some bad
         end
     | _ => Some bad
     end
